@@ -30,3 +30,32 @@ def loop_plan(prop):
 
 
 PLANS = {p: loop_plan(p) for p in ("C01", "C05", "C06", "C08", "C09")}
+
+ATTR_RULE = ("TLC enumerates (policy recipe, element, attribute list up to MaxAttrs in every order and multiplicity) of the families "
+             "fam_%s; the invariant is evaluated on SanitizeAttrs of every state; every state is emitted as a case, serialised as one "
+             "tag in `variants` syntactic variants (quoting, entities, case) and run through the real Sanitize; the attributes the real "
+             "sanitizeAttrs returns are compared with the prediction and the property oracle is evaluated on the real output. Recorded "
+             "random sessions are validated by Trace_Session.tla with CheckAttrs (SanitizeAttrs(before) = logged after at every tag). "
+             "non-trivial = distinct (recipe, tag) whose attributes are changed by the pipeline")
+
+
+def attr_plan(prop, fams):
+    def run(ctx, tier):
+        props = [prop]
+        for fam, q, t in fams:
+            ctx.mc_replay(fam, "MC_Attrs.tla", "MC_Attrs.cfg", "fam_%s.json" % fam, props, variants=2 if tier == "quick" else 4,
+                          consts={"MaxAttrs": q if tier == "quick" else t}, replaycmd="replayattrs", timeout=3000)
+        if tier == "quick":
+            ctx.trace("sessions", props, sessions=60, calls=25, kinds="0,1,3,4,6,6,6", check_attrs=True)
+        else:
+            ctx.trace("sessions", props, sessions=600, calls=40, kinds="0,1,3,4,5,6,6,6", check_attrs=True, timeout=3000)
+        return dict(rule=ATTR_RULE % "+".join(f[0] for f in fams), exhaustive=False, assumptions=ASSUME_COMMON + [
+            "oracle facts (how a browser reads a URL / splits a style attribute) come from harness code written from the WHATWG URL and CSS Syntax rules, independent of net/url and douceur"])
+    return run
+
+
+PLANS["C02"] = attr_plan("C02", [("allow", 3, 4), ("forced", 2, 3), ("link", 2, 3)])
+PLANS["C03"] = attr_plan("C03", [("url", 2, 3)])
+PLANS["C10"] = attr_plan("C10", [("style", 2, 3)])
+PLANS["C11"] = attr_plan("C11", [("link", 3, 4)])
+PLANS["C12"] = attr_plan("C12", [("forced", 3, 4), ("url", 1, 2)])
